@@ -40,10 +40,14 @@ def generate(rng, tier, idx):
         ops.append({"op": "dump", "path": path})
         variants = sorted(set(v for v, _, _ in K["cells"]))
         ops.append({"op": "im_downgrade", "path": path, "version": pick(rng, ["1.0", "1.1", "1.0"]),
-                    "src_variants": pick(rng, ["all", subset(rng, variants, 0, len(variants))]), "tag": "C10", "drop_empty": rng.random() < 0.4})
+                    "src_variants": pick(rng, ["all", subset(rng, variants, 0, len(variants))]), "tag": "C10", "drop_empty": rng.random() < 0.4, "empty_src": rng.random() < 0.4})
         ops.append({"op": "restart", "path": path, "via": pick(rng, ["path", "handle", "loads"]), "offset": rng.randint(0, 500)})
         ops.append({"op": "dump", "path": path})
         ops.append({"op": "restart", "path": path, "via": "path"})
+        if rng.random() < 0.5:
+            # the object that just went through a legacy load receives ANOTHER older document (other arches for a variant)
+            ops.insert(len(ops) - 2, {"op": "im_legacy_onto", "version": pick(rng, ["1.0", "1.1"]), "variant": pick(rng, variants or ["Server"]),
+                                      "arches": subset(rng, ["ppc64le", "s390x", "ia64", "riscv64", "x86_64", "aarch64"], 1, 3), "nsrc": rng.randint(1, 2)})
         return {"machine": "M-IM", "cfg": {"simset": pick(rng, ["insertion", "shuffle", "reverse"])}, "ops": ops}
     ops = gen_mf.rpms_canonical_history(rng)
     arches = sorted(set(o["arch"] for o in ops if o["op"] == "add"))
